@@ -143,9 +143,14 @@ pub fn init() {
     });
 }
 
+/// A TCP port for a health listener. Port 0 first; when the kernel finds none in the ephemeral range
+/// (EADDRINUSE: tens of thousands of loopback connections of earlier histories in TIME_WAIT), one
+/// from the range below it.
 fn free_tcp_port() -> u16 {
-    let l = std::net::TcpListener::bind("127.0.0.1:0").expect("bind tcp 0");
-    l.local_addr().unwrap().port()
+    match std::net::TcpListener::bind("127.0.0.1:0") {
+        Ok(l) => l.local_addr().unwrap().port(),
+        Err(_) => crate::proc::free_port(),
+    }
 }
 
 impl Srv {
